@@ -1,16 +1,18 @@
 #!/bin/bash
 # Build the simulator for one flavour from /repo's *current working tree*.
-# usage: build.sh <plain|asan|long|vblas> ; prints the build directory on stdout.
+# usage: build.sh <plain|asan|long|vblas|omp> ; prints the build directory on stdout.
 set -e
 FLAV=${1:-plain}
 REPO=${VERIF_REPO:-/repo}
 HERE=$(cd "$(dirname "$0")" && pwd)
 ROOT=$(dirname "$HERE")
-COMMON="-g -fno-omit-frame-pointer -D__PTHREAD -DAdd_ -DSLU_MT_VERIF -w"
+COMMON="-g -fno-omit-frame-pointer -DAdd_ -DSLU_MT_VERIF -w"
+if [ "$FLAV" = omp ]; then COMMON="$COMMON -D__OPENMP"; else COMMON="$COMMON -D__PTHREAD"; fi
 case $FLAV in
   plain) LIBF="-O1 $COMMON"; HF="-O2 $COMMON"; LDF="" ;;
   asan)  LIBF="-O1 $COMMON -fsanitize=address,alignment,null -fno-sanitize-recover=all"; HF="-O1 $COMMON -fsanitize=address"; LDF="-fsanitize=address,alignment,null" ;;
   long)  LIBF="-O1 $COMMON -D_LONGINT"; HF="-O2 $COMMON -D_LONGINT"; LDF="" ;;
+  omp)   LIBF="-O1 $COMMON -fopenmp"; HF="-O2 $COMMON -DSIM_OMP"; LDF="" ;;   # libgomp is NOT linked: sim.cc provides the five GOMP entry points
   vblas) LIBF="-O1 $COMMON -DUSE_VENDOR_BLAS"; HF="-O2 $COMMON -DSIM_VBLAS"; LDF="" ;;
   *) echo "unknown flavour $FLAV" >&2; exit 2 ;;
 esac
